@@ -147,7 +147,8 @@ def FoundOk (L : Char → Bool) (st : St) (data : Str) (f : Found) : Prop :=
   match f.node with
   | .none => True
   | .str s => ok L 0 s = true ∧ Cut L st.stash data f.start f.stop (letters L s)
-  | .el nd => nd.tail = none ∧ nodeOk L st.stash.length nd = true ∧ kidsNonAtomic nd.children = true ∧
+  | .el nd => nd.tail = none ∧ nodeOk L st.stash.length nd = true ∧ nd.attrs = [] ∧
+      kidsNonAtomic nd.children = true ∧
       Cut L st.stash data f.start f.stop (letters L (nodeFlat (table st.stash) nd))
 
 section
@@ -183,7 +184,7 @@ theorem found_code (hL : LetterClass L) (hdata : ok L st.stash.length data = tru
   obtain ⟨hsg, hlet⟩ := strip_flat hL (table st.stash) hg'
   subst hg
   rw [codeEscape_id hsg]
-  refine ⟨rfl, ?_, rfl, ?_⟩
+  refine ⟨rfl, ?_, rfl, rfl, ?_⟩
   · rw [nodeOk_iff]; exact ⟨hsg, rfl, rfl⟩
   · have hcut := cut_of (X := letters L (flatT (table st.stash) 0 (strip m.group))) hdata
       (pre := pre) (c := '`') (M' := List.replicate n' '`' ++ m.group ++ List.replicate (n' + 1) '`') (post := rest)
@@ -216,7 +217,10 @@ theorem found_bs (hL : LetterClass L) (hdata : ok L st.stash.length data = true)
   have hrep : replace m.group ['\\', '\\'] (STX :: '9' :: '2' :: [ETX])
       = (List.replicate ((k' + 1) / 2) (escToken 92)).flatten := by
     rw [hg, hk2, replace_bs_pairs, escToken_92]; congr 2; omega
-  have hL92 : L (Char.ofNat 92) = false := hL.bslash
+  have hL92 : tokChar L (Char.ofNat 92) = true := by
+    have e : Char.ofNat 92 = '\\' := by decide
+    rw [e]; simp only [tokChar, hL.bslash, Bool.not_false, Bool.true_and, Bool.and_eq_true, bne_iff_ne, ne_eq]
+    exact ⟨by decide, by decide⟩
   rw [hrep]
   refine ⟨ok_flatten_replicate (ok_escToken 0 (by decide) hL92) _, ?_⟩
   show Cut L st.stash data m.start (m.stop : Int) _
